@@ -159,6 +159,34 @@ impl Scenario for Exchange {
         for _ in 0..len {
             let user = p.usize(0, cfg.n_users - 1);
             let market = p.usize(0, n_markets - 1);
+            // A leveraged position followed by an adverse (or harmless) price move and a liquidation attempt.
+            if focus == "C09" && p.chance(1, 5) {
+                let mdef = MARKETS[market];
+                let is_long = p.bool();
+                let collat_long = p.bool();
+                let ctoken = if collat_long { mdef.1 } else { mdef.2 };
+                let collat_usd_cents = p.range(5_000, 200_000);
+                let dec = [9u32, 6, 8, 8][ctoken];
+                let collateral = (collat_usd_cents as u128 * 10u128.pow(dec) / cents[ctoken].max(1) as u128) as u64;
+                let lev = *p.pick(&[5u64, 10, 20, 40, 80]);
+                steps.push(Step::Prices { cents: cents.clone(), spread_bps: 2 });
+                n_actions += 1;
+                steps.push(Step::Order { user, market, kind: 0, is_long, collat_long, collateral, size_usd: (collat_usd_cents / 100).max(1) * lev, path: vec![], min_output: None, acceptable_cents: None, tin: None, tout: None });
+                steps.push(Step::Execute { slot: n_actions - 1, throw: true });
+                // move the index token against (or, sometimes, for) the position
+                let bps = *p.pick(&[0u64, 50, 200, 500, 1000, 2000, 4000]);
+                let against = p.chance(4, 5);
+                let down = is_long == against;
+                let idx = mdef.0;
+                let d = (cents[idx] as u128 * bps as u128 / 10_000) as u64;
+                cents[idx] = if down { cents[idx].saturating_sub(d).max(1) } else { cents[idx].saturating_add(d) };
+                if p.chance(1, 3) {
+                    steps.push(Step::Advance { secs: *p.pick(&[1i64, 600, 86_400]) });
+                }
+                steps.push(Step::Prices { cents: cents.clone(), spread_bps: 2 });
+                steps.push(Step::Liquidate { pos: usize::MAX });
+                continue;
+            }
             // A trader's round trip: open, (price move), reduce or close, with an optional builder what-if.
             if p.chance(1, if focus == "C32" { 6 } else { 25 }) {
                 let mdef = MARKETS[market];
@@ -912,16 +940,21 @@ impl Sim {
                 if self.positions.is_empty() {
                     return;
                 }
-                let pk = self.positions[*pos % self.positions.len()];
+                let pk = if *pos == usize::MAX { *self.positions.last().unwrap() } else { self.positions[*pos % self.positions.len()] };
                 let Some(p) = read_pod::<Position>(&self.w, &pk) else { return };
                 let size_before = p.state.size_in_usd;
                 let nonce = self.next_nonce();
                 let Some((ixs, _order)) = ex::position_cut_tx(&self.w, &self.d, &pk, nonce, None, 5000, 0) else { return };
                 let pre = self.w.clone();
+                let mi_liq = self.d.markets.iter().position(|m| m.market_token == p.market_token);
+                let liq_pre = mi_liq.and_then(|mi| crate::c40::accepted_prices(&pre, &self.d, mi).and_then(|pr| crate::c40::sdk_liquidatable(&pre, &self.d, mi, &pk, &pr, true)));
                 let out = self.w.process_tx(&ixs, &TxOpts::default());
                 obs.outcome("order_keeper", "liquidate", &out.class());
                 if out.ok {
                     obs.probe("liquidation_succeeded");
+                    if let Some(l) = liq_pre {
+                        obs.require(l, "C09", "healthy_position_liquidated", || "ref=sdk_position_model".into(), || format!("liquidation of position {pk} succeeded although check_liquidatable(for_liquidation=true) on the pre-state says it is healthy"));
+                    }
                     let after: Option<Position> = read_pod(&self.w, &pk);
                     let size_after = after.map(|p| p.state.size_in_usd).unwrap_or(0);
                     obs.require(size_before > 0 && size_after == 0, "C09", "liquidation_not_full_close", || "partial".into(), || format!("liquidation succeeded: size {size_before} -> {size_after}"));
@@ -1111,6 +1144,17 @@ impl Sim {
                     }
                     if self.acts[i].builder.is_some() {
                         self.check_builder_fee(i, &pre, &out, &rec_before, &esc_before, obs);
+                    }
+                    if let (Some(pos), Some((_, _, mi, _))) = (self.acts[i].position, self.acts[i].order_info) {
+                        let open = read_pod::<Position>(&self.w, &pos).map(|p| p.state.size_in_usd > 0).unwrap_or(false);
+                        if open {
+                            if let Some(prices) = crate::c40::accepted_prices(&pre, &self.d, mi) {
+                                if let Some(l) = crate::c40::sdk_liquidatable(&self.w, &self.d, mi, &pos, &prices, false) {
+                                    obs.require(!l, "C09", "position_left_liquidatable", || format!("kind={:?}", self.acts[i].order_kind), || format!("order #{i} executed and left position {pos} liquidatable at the execution prices"));
+                                    obs.probe("c09_health_checked_after_trade");
+                                }
+                            }
+                        }
                     }
                 }
                 St::Cancelled => {
